@@ -249,20 +249,28 @@ example : Plan.Good (k := 2)
     | 1, hl => simp at hl; subst hl; decide
     | i + 2, hl => simp at hl
 
-/-! ## FINDING (F12): row-group key ranges ignore nulls
+/-! ## F12 (repaired): row-group key ranges used to ignore nulls
 
-On the mirror of `rowGroupRangeOfSortedColumns` / `overlappingRowGroups` (one page per row group):
-inputs `[10, null]` and `[17, 17, 18]`, both sorted ascending with nulls last, get the key ranges
-`[10,10]` and `[17,18]`, are declared non-overlapping, and the merged row group is their
-concatenation `10, null, 17, 17, 18`, which is not sorted. The property fails on the real code with
-this input (harness key `nullable-key-ranges-ignore-nulls`). -/
+On the as-it-was mirror of `rowGroupRangeOfSortedColumns` / `overlappingRowGroups`
+(`nullAware = false`, one page per row group): inputs `[10, null]` and `[17, 17, 18]`, both sorted
+ascending with nulls last, got the key ranges `[10,10]` and `[17,18]`, were declared non-overlapping,
+and the merged row group was their concatenation `10, null, 17, 17, 18`, which is not sorted
+(harness key `nullable-key-ranges-ignore-nulls`). On the mirror of the code as it is now
+(`nullAware = true`) the first range is `[10, null]`, the two row groups form one segment and go
+through the merge reader. -/
 
-theorem nullable_key_ranges_ignore_nulls_violates_sortedness :
+theorem nullable_key_ranges_ignore_nulls_violates_sortedness_before_fix :
     sortedNullsLast [some 10, none] = true ∧ sortedNullsLast [some 17, some 17, some 18] = true ∧
-    segmentsOf [[some 10, none], [some 17, some 17, some 18]] = [[(0, 2)], [(1, 3)]] ∧
+    segmentsOf false false [[some 10, none], [some 17, some 17, some 18]] = [[(0, 2)], [(1, 3)]] ∧
     concatSingles [[some 10, none], [some 17, some 17, some 18]]
-      (segmentsOf [[some 10, none], [some 17, some 17, some 18]]) = some [some 10, none, some 17, some 17, some 18] ∧
+      (segmentsOf false false [[some 10, none], [some 17, some 17, some 18]]) = some [some 10, none, some 17, some 17, some 18] ∧
     sortedNullsLast [some 10, none, some 17, some 17, some 18] = false := by decide
+
+theorem nullable_key_ranges_overlap_after_fix :
+    segmentsOf true false [[some 10, none], [some 17, some 17, some 18]] = [[(0, 2), (1, 3)]] ∧
+    segmentsOf true true [[none, some 10], [some 3, some 4]] = [[(0, 2), (1, 2)]] ∧
+    segmentsOf true false [[some 1, some 2], [some 3, none], [some 9, none]] = [[(0, 2)], [(1, 2), (2, 2)]] ∧
+    segmentsOf true false [[some 1, some 2], [some 3, none], [none]] = [[(0, 2), (1, 2), (2, 1)]] := by decide
 
 /-! ## the abstract schedule theorems (MergeAbstract.lean) are instances of the above -/
 
